@@ -9,7 +9,9 @@ RULE = (
     "their prefixes and are judged step by step) over the 11-op alphabet {register(event e1|e2, priority 0|5, "
     "stops no|yes), dispatch(e1|e2|e3)}, each run three times from an empty dispatcher: with all queries evaluated "
     "after every step (which populates the sorted cache), without any query, and with the all-events get_listeners() "
-    "evaluated first after every step; random: Hypothesis op lists "
+    "evaluated first after every step; the same lengths over a 7-op re-entrant alphabet (a listener registers a "
+    "further listener of higher / lower / equal priority for the running event through the dispatcher it is handed); "
+    "random: Hypothesis op lists "
     "up to 40 ops with 3 events, priorities {-3,0,5}, re-registration of an existing callable, listeners that "
     "register a further listener while being called, and every single query form (all events, one event, has) as its own operation. Non-trivial: a dispatch "
     "with >= 2 listeners of equal priority on that event, or a registration after a dispatch of the same event "
@@ -26,6 +28,10 @@ EVENTS = ["e1", "e2", "e3"]
 OPS = [("r", e, p, s) for e in ("e1", "e2") for p in (0, 5) for s in (0, 1)] + [
     ("d", e) for e in EVENTS
 ]
+
+
+class Runaway(Exception):
+    """Raised by a listener when one dispatch has made more calls than any correct dispatch could."""
 
 
 class Harness(object):
@@ -51,11 +57,15 @@ class Harness(object):
 
         def listener(event, event_name, dispatcher):
             h.log.append(lid)
+            if len(h.log) > 300:
+                raise Runaway()
             if dispatcher is not h.d or not isinstance(event_name, str):
                 h.bad_args.append((lid, event_name))
             h.call_names.append(event_name)
             if spawn is not None:
-                h.pending.append((event_name, spawn))
+                # registers a further listener for this very event WHILE the dispatch is running (through the
+                # dispatcher it was handed); that listener takes part from the next dispatch on
+                h.register(event_name, spawn[0], spawn[1], via=dispatcher)
             if stops:
                 event.stop_propagation()
 
@@ -64,14 +74,14 @@ class Harness(object):
         self.meta[lid] = (stops, spawn)
         return listener
 
-    def register(self, event, prio, stops, spawn=None, reuse=None):
+    def register(self, event, prio, stops, spawn=None, reuse=None, via=None):
         if reuse is not None and self.listeners:
             lid = sorted(self.listeners)[reuse % len(self.listeners)]
             fn = self.listeners[lid]
         else:
             lid = len(self.listeners)
             fn = self.make_listener(lid, stops, spawn)
-        self.d.add_listener(event, fn, prio)
+        (via or self.d).add_listener(event, fn, prio)
         self.regs.append((event, prio, lid))
         if event in self.dispatched:
             self.late.add(event)
@@ -104,6 +114,9 @@ class Harness(object):
         ev = self.Event() if pass_event else None
         try:
             ret = self.d.dispatch(event, ev) if pass_event else self.d.dispatch(event)
+        except Runaway:
+            fail("C12.once", exp, "the dispatch keeps calling listeners (more than 300 calls)", sig="runaway")
+            return
         except Exception as e:
             fail("C12.order", exp, None, exc=e)
             return
@@ -124,10 +137,6 @@ class Harness(object):
         if ret is not None and hasattr(ret, "is_propagation_stopped"):
             if bool(ret.is_propagation_stopped()) != stopped:
                 fail("C12.event", stopped, ret.is_propagation_stopped(), sig="stopped-flag")
-        # listeners spawned while dispatching are registered now (same event), in call order
-        for ev_name, (prio, stops) in self.pending:
-            self.register(ev_name, prio, stops)
-        self.pending = []
 
     def regs_event(self, lid):
         return set(e for (e, _, l) in self.regs if l == lid)
@@ -237,6 +246,21 @@ def shard_exhaustive(ctx, arg):
         run_ops(ctx, "exhaustive", ops, "all-first", by_construction=True)
 
 
+# re-entrant family: listeners that register a further listener (higher / lower / equal priority) while they run
+OPS_REENTRANT = [("rs", "e1", 0, 0, 5, 0), ("rs", "e1", 5, 0, 0, 0), ("rs", "e1", 0, 1, 5, 0), ("rs", "e1", 0, 0, 0, 0),
+                 ("r", "e1", 0, 0), ("r", "e1", 5, 0), ("d", "e1")]
+
+
+def shard_reentrant(ctx, arg):
+    n, first = arg
+    for rest in itertools.product(OPS_REENTRANT, repeat=n - 1):
+        ops = (tuple(first),) + rest
+        if not any(o[0] == "rs" for o in ops) or not any(o[0] == "d" for o in ops):
+            continue
+        run_ops(ctx, "exhaustive", ops, True, by_construction=True)
+        run_ops(ctx, "exhaustive", ops, False, by_construction=True)
+
+
 def op_st():
     ev = st.sampled_from(EVENTS)
     pr = st.sampled_from([-3, 0, 5])
@@ -272,8 +296,10 @@ def run(ctx):
     else:
         jobs = [(n, [list(a), list(b)]) for a in OPS for b in OPS]
     ctx.parallel("shard_exhaustive", jobs)
+    ctx.parallel("shard_reentrant", [(n, list(a)) for a in OPS_REENTRANT])
     ctx.exhaustive(
-        "exhaustive", True, "all %d^%d op sequences, each with and without queries" % (len(OPS), n)
+        "exhaustive", True, "all %d^%d op sequences, each with and without queries; all %d^%d sequences over the "
+        "re-entrant alphabet (listeners that register a listener for the running event)" % (len(OPS), n, len(OPS_REENTRANT), n)
     )
     case = st.fixed_dictionaries(
         {"ops": st.lists(op_st(), min_size=1, max_size=40).map(lambda l: [list(o) for o in l]),
